@@ -1,0 +1,213 @@
+//! Verification hooks (only compiled with the `verif_hooks` feature).
+//!
+//! With the feature enabled, `SourceView` uses the [`Mutex`] and
+//! [`AtomicUsize`] wrappers from this module instead of the ones from `std`.
+//! The wrappers delegate to the real `std` primitives, so locking, poisoning
+//! and memory ordering are exactly those of the normal build; in addition they
+//! report an [`Event`] to a process-global callback before every lock
+//! acquisition and every atomic operation and after every lock release.  An
+//! external monitor can use the callback to park the calling thread and thereby
+//! control the interleaving of threads that share a `SourceView`.
+//!
+//! When no callback is installed the wrappers add one relaxed atomic load per
+//! operation and nothing else.
+
+use std::ops::{Deref, DerefMut};
+use std::sync::atomic::{AtomicBool, Ordering};
+use std::sync::{Arc, LockResult, PoisonError, RwLock, TryLockError};
+
+/// What a thread is about to do / has just done.
+#[derive(Debug, Clone, Copy, PartialEq, Eq)]
+pub enum Event {
+    /// The calling thread wants the lock with the given identity.  The wrapper
+    /// re-emits this event until the lock could be taken without blocking.
+    LockAttempt(usize),
+    /// The calling thread now holds the lock (information, not a yield point).
+    Acquired(usize),
+    /// The calling thread released the lock (information only).
+    Released(usize),
+    /// The calling thread is outside the lock again (yield point).
+    AfterUnlock(usize),
+    /// The calling thread is about to perform the named atomic operation.
+    Atomic(&'static str, usize),
+}
+
+type Callback = Arc<dyn Fn(Event) + Send + Sync>;
+
+static ENABLED: AtomicBool = AtomicBool::new(false);
+static CALLBACK: RwLock<Option<Callback>> = RwLock::new(None);
+
+/// Installs (or removes) the process-global callback.
+pub fn set_hook(cb: Option<Callback>) {
+    let mut slot = CALLBACK.write().unwrap_or_else(PoisonError::into_inner);
+    ENABLED.store(cb.is_some(), Ordering::SeqCst);
+    *slot = cb;
+}
+
+#[inline]
+fn emit(ev: Event) {
+    if !ENABLED.load(Ordering::Relaxed) {
+        return;
+    }
+    let cb = CALLBACK
+        .read()
+        .unwrap_or_else(PoisonError::into_inner)
+        .clone();
+    if let Some(cb) = cb {
+        cb(ev);
+    }
+}
+
+/// Drop-in replacement for the subset of `std::sync::Mutex` that is used.
+pub struct Mutex<T> {
+    inner: std::sync::Mutex<T>,
+}
+
+pub struct MutexGuard<'a, T> {
+    inner: Option<std::sync::MutexGuard<'a, T>>,
+    id: usize,
+}
+
+impl<T> Mutex<T> {
+    pub fn new(value: T) -> Mutex<T> {
+        Mutex {
+            inner: std::sync::Mutex::new(value),
+        }
+    }
+
+    fn id(&self) -> usize {
+        &self.inner as *const _ as usize
+    }
+
+    pub fn lock(&self) -> LockResult<MutexGuard<'_, T>> {
+        if !ENABLED.load(Ordering::Relaxed) {
+            let id = self.id();
+            return match self.inner.lock() {
+                Ok(g) => Ok(MutexGuard { inner: Some(g), id }),
+                Err(p) => Err(PoisonError::new(MutexGuard {
+                    inner: Some(p.into_inner()),
+                    id,
+                })),
+            };
+        }
+        let id = self.id();
+        loop {
+            emit(Event::LockAttempt(id));
+            match self.inner.try_lock() {
+                Ok(g) => {
+                    emit(Event::Acquired(id));
+                    return Ok(MutexGuard { inner: Some(g), id });
+                }
+                Err(TryLockError::Poisoned(p)) => {
+                    emit(Event::Acquired(id));
+                    return Err(PoisonError::new(MutexGuard {
+                        inner: Some(p.into_inner()),
+                        id,
+                    }));
+                }
+                Err(TryLockError::WouldBlock) => {
+                    if !ENABLED.load(Ordering::Relaxed) {
+                        std::thread::yield_now();
+                    }
+                }
+            }
+        }
+    }
+}
+
+impl<T> Deref for Mutex<T> {
+    type Target = std::sync::Mutex<T>;
+    fn deref(&self) -> &Self::Target {
+        &self.inner
+    }
+}
+
+impl<T> Deref for MutexGuard<'_, T> {
+    type Target = T;
+    fn deref(&self) -> &T {
+        self.inner.as_ref().unwrap()
+    }
+}
+
+impl<T> DerefMut for MutexGuard<'_, T> {
+    fn deref_mut(&mut self) -> &mut T {
+        self.inner.as_mut().unwrap()
+    }
+}
+
+impl<T> Drop for MutexGuard<'_, T> {
+    fn drop(&mut self) {
+        // release the real lock first (this is where poisoning is decided,
+        // while the thread may be panicking), then report.
+        drop(self.inner.take());
+        emit(Event::Released(self.id));
+        if !std::thread::panicking() {
+            emit(Event::AfterUnlock(self.id));
+        }
+    }
+}
+
+/// Drop-in replacement for the subset of `AtomicUsize` that is used.
+pub struct AtomicUsize {
+    inner: std::sync::atomic::AtomicUsize,
+}
+
+impl AtomicUsize {
+    pub const fn new(v: usize) -> AtomicUsize {
+        AtomicUsize {
+            inner: std::sync::atomic::AtomicUsize::new(v),
+        }
+    }
+
+    fn id(&self) -> usize {
+        &self.inner as *const _ as usize
+    }
+
+    pub fn load(&self, order: Ordering) -> usize {
+        emit(Event::Atomic("load", self.id()));
+        self.inner.load(order)
+    }
+
+    pub fn store(&self, v: usize, order: Ordering) {
+        emit(Event::Atomic("store", self.id()));
+        self.inner.store(v, order)
+    }
+
+    pub fn swap(&self, v: usize, order: Ordering) -> usize {
+        emit(Event::Atomic("swap", self.id()));
+        self.inner.swap(v, order)
+    }
+
+    pub fn fetch_add(&self, v: usize, order: Ordering) -> usize {
+        emit(Event::Atomic("fetch_add", self.id()));
+        self.inner.fetch_add(v, order)
+    }
+
+    pub fn fetch_sub(&self, v: usize, order: Ordering) -> usize {
+        emit(Event::Atomic("fetch_sub", self.id()));
+        self.inner.fetch_sub(v, order)
+    }
+
+    pub fn fetch_max(&self, v: usize, order: Ordering) -> usize {
+        emit(Event::Atomic("fetch_max", self.id()));
+        self.inner.fetch_max(v, order)
+    }
+
+    pub fn compare_exchange(
+        &self,
+        current: usize,
+        new: usize,
+        success: Ordering,
+        failure: Ordering,
+    ) -> Result<usize, usize> {
+        emit(Event::Atomic("compare_exchange", self.id()));
+        self.inner.compare_exchange(current, new, success, failure)
+    }
+}
+
+impl Deref for AtomicUsize {
+    type Target = std::sync::atomic::AtomicUsize;
+    fn deref(&self) -> &Self::Target {
+        &self.inner
+    }
+}
